@@ -10,6 +10,7 @@ import (
 	"net/http"
 	"net/http/httptest"
 	"reflect"
+	"strings"
 	"testing"
 	"time"
 
@@ -122,6 +123,22 @@ func vRandSession(r *rand.Rand) *sessionsapi.SessionState {
 		r.Read(raw)
 		return base64.RawURLEncoding.EncodeToString(raw)[:n]
 	}
+	// one session in four is highly compressible (the session encoding compresses before it encrypts): runs of one
+	// character, a repeated phrase, directory-style group names sharing almost all of their text
+	compressible := r.Intn(4) == 0
+	if compressible {
+		tok = func() string {
+			sizes := []int{0, 90, 400, 2000, 5000, 12000, 40000}
+			n := sizes[r.Intn(len(sizes))]
+			switch r.Intn(3) {
+			case 0:
+				return strings.Repeat("a", n)
+			case 1:
+				return strings.Repeat("eyJhbGciOiJSUzI1NiJ9.", n/21+1)[:n]
+			}
+			return strings.Repeat("\x00", n/2) + strings.Repeat("z", n/2)
+		}
+	}
 	created := time.Now().Add(-time.Duration(r.Intn(600)) * time.Second).Truncate(time.Second)
 	exp := created.Add(time.Duration(1+r.Intn(7200)) * time.Second)
 	s := &sessionsapi.SessionState{CreatedAt: &created, AccessToken: tok(), IDToken: tok(), RefreshToken: tok()}
@@ -145,6 +162,12 @@ func vRandSession(r *rand.Rand) *sessionsapi.SessionState {
 		}
 	default:
 		s.Groups = []string{"admins", "dev,ops"}
+	}
+	if compressible && r.Intn(2) == 0 {
+		s.Groups = nil
+		for i := 0; i < 10+r.Intn(150); i++ {
+			s.Groups = append(s.Groups, fmt.Sprintf("cn=team-%03d,ou=groups,ou=department-of-long-names,dc=corp,dc=example,dc=com", i))
+		}
 	}
 	if r.Intn(2) == 0 {
 		s.Nonce = make([]byte, 1+r.Intn(64))
